@@ -173,6 +173,10 @@ int vchild_run(const char *sockpath, const char *flags, const char *tag,
     free(h.p);
   }
 
+  if (flags && strstr(flags, "snap")) {
+    const char *sn = snap ? snap : "";
+    if (msg_send(s, sn, (uint32_t) strlen(sn)) < 0) _exit(0);
+  }
   if (flags && (f = strstr(flags, "free:"))) {
     free_run(s, f + 5);
     _exit(0);
